@@ -6,12 +6,16 @@ from ..symx import run_paths
 from ..lin import Form, Lin
 
 MANIFEST = {
-    'technique': 'homogeneity-degree analysis (D-hom) of the residual functions in the composition vector, must-pass rule "returned composition goes through normalize", quantity-kind rule for the single-component shortcut, key-covers-inputs rule for the instance caches',
-    'text': 'Decides for every input: every non-reactive return of solve_Ty/solve_Py/solve_Tx/solve_Px passes the composition through normalize; '
-            'the residual 1 - sum(y) (resp. x) is homogeneous of degree 0 in z exactly when every z-derived argument handed to the residual function '
-            'has degree 0 (otherwise the result depends on the scale of z); the single-component shortcut returns Tsat for the T-methods and Psat for the '
-            'P-methods; the per-class instance cache key contains the chemicals and every attribute of the property package that __new__ reads. '
-            'Residual magnitudes, T-P inversion, bubble <= dew and permutation invariance are numerical and not decided.',
+    'technique': 'homogeneity-degree analysis (D-hom) of the residual functions in the composition vector, must-pass rule "returned composition goes through normalize", '
+            "quantity-kind rule for the single-component shortcut, key-covers-inputs rule for the instance caches; symbolic substitution of the callers' argument "
+            "tuples into the residual functions and exponent-vector comparison with modified Raoult's law",
+    'text': 'Decides for every input: every non-reactive return of solve_Ty/solve_Py/solve_Tx/solve_Px passes the composition through normalize; the residual 1 - '
+            'sum(y) (resp. x) is homogeneous of degree 0 in z exactly when every z-derived argument handed to the residual function has degree 0 (otherwise the '
+            'result depends on the scale of z); the single-component shortcut returns Tsat for the T-methods and Psat for the P-methods; the per-class instance '
+            "cache key contains the chemicals and every attribute of the property package that __new__ reads. With the caller's arguments substituted, the quantity "
+            'each of the eight residual functions (plain and reactive) hands to its inner composition solve is z*Psat*gamma*pcf/P for the bubble point and '
+            'z*P*phi/(Psat*pcf) for the dew point, and the inner solves divide by phi(y) resp. gamma(x). Residual magnitudes, T-P inversion, bubble <= dew and '
+            'permutation invariance are numerical and not decided.',
 }
 
 BP = 'thermosteam/equilibrium/bubble_point.py'
@@ -56,6 +60,8 @@ def run(ctx):
         'D2 residuals are homogeneous of degree 0 in z (scale freedom)',
         'D3 single-component shortcut: T-methods return Tsat, P-methods return Psat',
         'D4 instance-cache key covers what __new__ reads',
+        'D5 with the caller\'s arguments substituted, the quantity each residual function hands to its inner composition solve is '
+        'z*Psat*gamma*pcf/P (bubble; y = that / phi(y)) resp. z*P*phi/(Psat*pcf) (dew; x = that / gamma(x)): modified Raoult\'s law, nothing missing, nothing inverted',
     ]
     ctx.not_decided = ['residual magnitude at the solution', 'T(P(T)) = T', 'bubble T <= dew T', 'permutation invariance']
     d1 = ctx.rule('D1', 'normalised result', floor=8)
@@ -102,6 +108,8 @@ def run(ctx):
                 d3.fail(cons, 'shortcut-kind', 'single-component shortcut does not return the chemical\'s %s' % want, f, b)
         # ---- D2
         homogeneity(ctx, d2, prog, f, cname, mname, rel)
+    d5 = ctx.rule('D5', 'the residual summand has the shape of modified Raoult\'s law', floor=10)
+    raoult_shape(ctx, d5)
     # ---- D4
     for cname, rel in (('BubblePoint', BP), ('DewPoint', DP)):
         f = prog.method(cname, '__new__', rel=rel)
@@ -203,6 +211,7 @@ def homogeneity(ctx, d2, prog, f, cname, mname, rel):
             total = None
             break
         total = d if total is None else (total if total == d else 'mixed')
+    ctx.extra.setdefault('C08_residuals', []).append((cname, mname, resid_name, g, params, args, yv, f))
     zdeps = {k_: v_ for k_, v_ in degs.items() if v_ not in (0,) and k_ not in ('P', 'T', 'Psats', 'x', 'y')}
     # degree of the P/T arguments is 0 by construction (they do not mention z)
     if total == 0 and not bad_inner:
@@ -211,3 +220,205 @@ def homogeneity(ctx, d2, prog, f, cname, mname, rel):
         which = ', '.join('%s (degree %s)' % kv for kv in sorted(zdeps.items(), key=str)) or str(bad_inner)
         d2.fail(cons, 'scale-dependent', 'the residual of %s is not homogeneous of degree 0 in z: it receives %s, so the result changes when z is multiplied by a constant'
                 % (resid_name, which), f, fa[-1].stmt)
+
+
+def _subst(form, mapping):
+    """replace parameter atoms of a residual function by the caller's argument forms"""
+    out = Form.const(0)
+    for k, c in form.t.items():
+        term = Form.const(c)
+        for a, e in k:
+            base = mapping.get(a, Form.atom(a))
+            if e < 0:
+                base = base.inv()
+            for _ in range(abs(e)):
+                term = term * base
+        out = out + term
+    return out
+
+
+def raoult_shape(ctx, d5):
+    """y_i phi_i P = x_i gamma_i pcf_i Psat_i.  Bubble: the summand handed to solve_y is y*phi = z*gamma*pcf*Psat/P;
+    dew: the summand handed to _solve_x is x*gamma = z*phi*P/(pcf*Psat)."""
+    res = ctx.extra.get('C08_residuals') or []
+    if len(res) < 4:
+        raise AnalysisError('C08-D5: expected the 4 residual functions, found %d' % len(res))
+    WANT = {'BubblePoint': {'Psat': 1, 'gamma': 1, 'pcf': 1, 'P': -1, 'phi': 0, 'z': 1},
+            'DewPoint': {'Psat': -1, 'gamma': 0, 'pcf': -1, 'P': 1, 'phi': 1, 'z': 1}}
+
+    def klass(a):
+        if a in ('z',):
+            return 'z'
+        if a == 'z.sum()':
+            return 'zsum'
+        if a == 'P':
+            return 'P'
+        for nm in ('gamma', 'pcf', 'phi'):
+            if a.startswith('self.%s(' % nm):
+                return nm
+        if 'self.Psats' in a and not a.startswith('self.'):
+            return 'Psat'
+        return 'other:' + a
+    for cname, mname, rname, g, params, args, yv, f in res:
+        cons = '%s.%s' % (cname, rname)
+        full = _subst(yv, dict(zip(params, args)))
+        if len(full.t) != 1:
+            d5.fail(cons, 'raoult-shape', 'the summand is not a single product: %s' % full.pretty(), g, g.node)
+            continue
+        (k, c), = full.t.items()
+        got = {'Psat': 0, 'gamma': 0, 'pcf': 0, 'P': 0, 'phi': 0, 'z': 0}
+        other = []
+        for a, e in k:
+            kl = klass(a)
+            if kl == 'zsum':
+                continue            # normalisation of z: decided by D2
+            if kl.startswith('other:'):
+                other.append(a)
+            else:
+                got[kl] += e
+        want = WANT[cname]
+        if c == 1 and got == want and not other:
+            d5.ok(cons, 'summand = %s  (as called from %s)' % (full.pretty(), mname), g)
+        else:
+            diff = {x: (got[x], want[x]) for x in want if got[x] != want[x]}
+            d5.fail(cons, 'raoult-shape', 'the quantity handed to the inner solve is %s; modified Raoult\'s law needs exponents %s (found/needed %s%s%s)'
+                    % (full.pretty(), want, diff, ', stray factors %s' % other if other else '', ', coefficient %s' % c if c != 1 else ''), g, g.node)
+    # the reactive siblings: same law for the composition after conversion (the buffer the function fills with z + dz, normalised)
+    prog = ctx.prog
+    for cname, rel, mname, kind in SOLVERS:
+        f = prog.method(cname, mname, rel=rel)
+
+        def decide(t, st):
+            s_ = src(t)
+            if isinstance(t, ast.Compare) and isinstance(t.ops[0], ast.Eq) and isinstance(t.comparators[0], ast.Constant) and t.comparators[0].value in (0, 1):
+                return False
+            if 'conversion is None' in s_:
+                return False
+            if 'conversion' in s_ and isinstance(t, ast.Name):
+                return True
+            if s_.startswith('T >') or s_.startswith('T <'):
+                return False
+            return None
+        ps, _ = run_paths(f.node, decide=decide, follow_except=False)
+        ps = [p for p in ps if not p.raised]
+        found = None
+        for p in ps:
+            for e in p.events:
+                if e.kind == 'call' and e.target in ('flx.aitken_secant', 'flx.IQ_interpolation') and e.value and e.value[0].pretty().endswith('_reactive'):
+                    args = None
+                    for a in list(e.node.args) + [k.value for k in e.node.keywords]:
+                        if isinstance(a, ast.Name) and a.id in p.tup and len(p.tup[a.id]) >= 3:
+                            args = p.tup[a.id]
+                    found = (e.value[0].pretty().split('.')[-1], args)
+            if found:
+                break
+        if not found or not found[1]:
+            d5.skip('%s.%s' % (cname, mname), 'reactive residual not resolved', f, f.node)
+            continue
+        rname, args = found
+        g = prog.method(cname, rname, rel=rel)
+        params = g.params[2:]
+        cons = '%s.%s' % (cname, rname)
+        if len(params) != len(args):
+            d5.fail(cons, 'args-arity', '%s takes %s after the unknown but %d arguments are supplied' % (rname, params, len(args)), f, f.node)
+            continue
+        gp, _ = run_paths(g.node, follow_except=False)
+        gp = [q for q in gp if not q.raised][0]
+        yv = None
+        comp = set()
+        for e in gp.events:
+            if e.kind == 'store' and e.target.endswith('[::]'):
+                v = e.stmt.value
+                if isinstance(v, ast.Call) and v.args and not (isinstance(v.func, ast.Name) and v.func.id in g.params):
+                    yv = gp.lin.form(v.args[0])
+                elif not isinstance(v, ast.Call):
+                    comp.add(e.target[:-4])
+        if yv is None or not comp:
+            d5.skip(cons, 'summand / composition buffer not found', g, g.node)
+            continue
+        mapping = {prm: a for prm, a in zip(params, args) if prm not in comp}
+        full = _subst(yv, mapping)
+        if len(full.t) != 1:
+            d5.fail(cons, 'raoult-shape', 'the summand is not a single product: %s' % full.pretty(), g, g.node)
+            continue
+        (k, c), = full.t.items()
+        got = {'Psat': 0, 'gamma': 0, 'pcf': 0, 'P': 0, 'phi': 0, 'z': 0}
+        other = []
+        for a, e in k:
+            if a in comp:
+                got['z'] += e
+                continue
+            if a in ['%s.sum()' % x for x in comp]:
+                continue
+            kl = klass(a)
+            if kl.startswith('other:') or kl in ('z', 'zsum'):
+                other.append(a)
+            else:
+                got[kl] += e
+        want = WANT[cname]
+        if c == 1 and got == want and not other:
+            d5.ok(cons, 'summand = %s  (as called from %s, composition buffer %s)' % (full.pretty(), mname, sorted(comp)), g)
+        else:
+            diff = {x: (got[x], want[x]) for x in want if got[x] != want[x]}
+            d5.fail(cons, 'raoult-shape', 'the quantity handed to the inner solve is %s; modified Raoult\'s law needs exponents %s (found/needed %s%s)'
+                    % (full.pretty(), want, diff, ', stray factors %s' % other if other else ''), g, g.node)
+    # the inner solves divide by the coefficient of the phase being solved for
+    yi = prog.func(BP, 'y_iter')
+    ps, _ = run_paths(yi.node)
+    r = [p.ret for p in ps if not p.raised]
+    a = yi.params
+    okk = bool(r) and all(x is not None and len(x.t) == 1 and dict(list(x.t)[0]).get(a[1]) == 1
+                          and any(t.startswith(a[2] + '(') and e == -1 for t, e in list(x.t)[0]) for x in r)
+    if okk:
+        d5.ok('y_iter', 'y <- y_phi / phi(normalised y, T, P)', yi)
+    else:
+        d5.fail('y_iter', 'inner-solve', 'the vapour fixed point is not y_phi / phi(y): %s' % [x.pretty() if x is not None else None for x in r], yi, yi.node)
+    sx = prog.method('DewPoint', '_solve_x', rel=DP)
+    callee = [n for n in walk_no_nested(sx.node) if isinstance(n, ast.Call) and isinstance(n.func, ast.Name)]
+    inner = None
+    for n in callee:
+        m = prog.module(DP)
+        tgt = m.imports.get(n.func.id) or ''
+        for mm in prog.modules.values():
+            if n.func.id in mm.functions and (mm.rel.replace('/', '.')[:-3].endswith(tgt.rsplit('.', 1)[0].lstrip('.')) or mm is m or True):
+                cand = mm.functions[n.func.id]
+                if 'x_gamma' in cand.params or len(cand.params) >= 5:
+                    inner = (cand, n)
+    if inner is None:
+        d5.skip('DewPoint._solve_x', 'inner liquid solve not resolved', sx, sx.node)
+        return
+    cand, n = inner
+    # the liquid solve iterates on gamma (gamma <- f_gamma(normalised x_gamma / gamma)) and returns x_gamma / gamma
+    xg = n.args[1] if len(n.args) > 1 else None
+    pos = 1
+    xg_name = cand.params[pos]
+    ps, _ = run_paths(cand.node, follow_except=True)
+    r = [p.ret for p in ps if not p.raised and p.ret is not None]
+    good = bool(r)
+    for x in r:
+        if len(x.t) != 1:
+            good = False
+            continue
+        k = dict(list(x.t)[0])
+        if k.get(xg_name) != 1 or sorted(e for a_, e in k.items() if a_ != xg_name) != [-1]:
+            good = False
+    if good:
+        d5.ok(cand.qualname, 'returns %s / gamma on all %d return paths' % (xg_name, len(r)), cand)
+    else:
+        d5.fail(cand.qualname, 'inner-solve', 'the liquid solve does not return %s / gamma: %s' % (xg_name, [x.pretty() for x in r]), cand, cand.node)
+    it = None
+    for nn in walk_no_nested(cand.node):
+        if isinstance(nn, ast.Call) and nn.args and isinstance(nn.args[0], ast.Name) and nn.args[0].id in cand.module.functions and nn.args[0].id != cand.name:
+            it = cand.module.functions[nn.args[0].id]
+    if it is None:
+        d5.skip('solve_x', 'iteration function not resolved', cand, cand.node)
+        return
+    ps, _ = run_paths(it.node)
+    r = [p.ret for p in ps if not p.raised and p.ret is not None]
+    g0, g1 = it.params[0], it.params[1]
+    ratio = (Form.atom(g1) * Form.atom(g0).inv()).pretty()
+    good = bool(r) and all(len(x.t) == 1 and len(list(x.t)[0]) == 1 and ratio in list(x.t)[0][0][0] and list(x.t)[0][0][0].startswith(it.params[4] + '(') for x in r)
+    if good:
+        d5.ok(it.qualname, 'gamma <- f_gamma(normalised %s, T, ...)' % ratio, it)
+    else:
+        d5.fail(it.qualname, 'inner-solve', 'the fixed-point map is not gamma <- f_gamma(%s): %s' % (ratio, [x.pretty() for x in r]), it, it.node)
